@@ -15,6 +15,9 @@ import Blue.Proofs.StoreHistTree
 import Blue.Proofs.ApplyLater
 import Blue.Proofs.StoreHistLater
 import Blue.Proofs.StoreHistLaterGc
+import Blue.Proofs.StoreHistWindow
+import Blue.Proofs.Recover
+import Blue.Proofs.RecoverHist
 /-! # Property C01 — point reads return the latest write, whatever the tree did in between
 
 Property theorems only.  The store is modelled as the list of its components in *search order*
@@ -56,7 +59,8 @@ What is NOT modelled (see `partial`/`assumptions` of the claim): values and tomb
 is a `(key, timestamp)` pair, which determines the payload; "a deleted key reads as `None`" and
 "the read timestamp is the last completed sequence number" are compared by the oracle only.  The
 STORE's history relation (put/del/batch, rollover, flush, compaction) is the section `History`
-further down; reopen and the verifier/trash clean-ups have no step relation.
+further down; the verifier/trash clean-ups have no step relation; reopen has one (block `Recover`,
+valid inside the class `NoKeyTsOverlap` only).
 
 The TREE has a step relation (block `ApplyCompaction` below): `Blue.NextCompaction.applyCompaction`
 follows `Version::apply_compaction_inner` (inputs removed by id at the levels `lower .. upper`
@@ -145,10 +149,13 @@ tree installed on.  With garbage-collecting installs (`gcInstall i outs`: output
 `compaction` mutex: a reader holding an old snapshot is C06's subject; `Vec::swap_remove` on the
 in-flight list is modelled by `List.eraseIdx` (the invariant is independent of the order).
 
-What is NOT modelled (see `partial`/`assumptions` of the claim): reopen / `recover`, the
+What is NOT modelled (see `partial`/`assumptions` of the claim): reopen / `recover` OUTSIDE the class
+`NoKeyTsOverlap` (block `Recover`: inside it a reopen is a step of the history), the
 verifier/trash clean-ups, external ingest, failing writes, concurrency (operations are completed
 calls, reads happen between them; the window in which a flushed file and the immutable memtable
-are both visible is `Blue.Rollover`'s), `(key, timestamp)` uniqueness
+are both visible IS modelled at history level: block `StoreHistWindow` at the end — `flush` split
+into `flushInstall` / `flushClear`, `window_invariant`, `window_reads_unchanged`,
+`history_refines_window`; `Blue.Rollover` has it for C06's concurrent model), `(key, timestamp)` uniqueness
 (not needed: the payload map is keyed by the pair and a batch cannot name a key twice).  That the Rust code performs these
 model operations is the correspondence check (`kvsLoad` and `invB` are evaluated on every dumped
 state of every history), not a theorem.
@@ -157,7 +164,17 @@ What is checked per run rather than proved: that the implementation's reached st
 `invB` (and the trees the selector runs on `Blue.NextCompaction.invB`), that the function model
 returns what the real selector returns, and — independently of the model — that every compaction
 the real selector chose is `closedB` on the state it was chosen in.
-`recover` (level reassignment on reopen) does **not** preserve I1/I2 — known finding D-9. -/
+`recover` (level reassignment on reopen, lsmtk/src/tree/recover.rs) is modelled (block `Recover`,
+`Blue.Recover.recoverTree`; the unrolled Tarjan loop is replaced by the partition it computes).
+It does **not** preserve I1/I2 in general — known finding D-9, here the theorem
+`recover_breaks_inv_witness` about the model of the code as it stands: three files of a legitimate
+tree, recovered with two overlapping files in level 1, the older first, and a stale read.  It DOES
+preserve the tree invariant, I2 and every read when no two files overlap in key range AND in
+timestamp range (`recover_preserves_inv`, `recoverTree_preserves_inv`, `recover_reads_same`), and a
+reopen inside that class is a step of the composed history (`reopen_step`,
+`store_history_refines_reopen`).  The class is sufficient, not necessary: a component of mutually
+overlapping files with nothing above it lands in level 0, where overlap is allowed
+(`overlap_harmless_at_level0`). -/
 namespace Blue.Props.C01
 open Blue.Spec Blue.Kvs
 
@@ -1278,6 +1295,272 @@ end LaterHist
 end ApplyLater
 -- END ApplyLater
 
+-- BEGIN StoreHistWindow
+/-! ## the FLUSH WINDOW at history level (Model/StoreHistWindow.lean, Proofs/StoreHistWindow.lean)
+
+`flush` of `Blue.StoreHist` is ONE step; `_memtable_thread` does it in two critical sections:
+`self.tree._ingest(…)` installs the version holding the new level-0 file (kvs/mod.rs line 310) and
+`state.imm = None` comes later under the state lock (line 322).  `load` clones `mem`, `imm` and the
+tree snapshot under the state lock (lines 555–565), so between the two it sees the flushed versions
+through `imm` AND through the tree.  `Blue.StoreHistWindow` has the split alphabet `write | rollover |
+flushInstall | flushClear | compact` over `WState = (HState, win)`.  Inside the window the code
+allows writes (`write` never waits for `imm`), compactions (the compaction thread may pick the new
+file) and reads; NOT a rollover (rotation and clear are head and tail of one iteration of the single
+`_memtable_thread` loop) — `rollover` on a state with an immutable memtable is the no-op it is in
+`Blue.StoreHist`.
+
+`WInv` (the weakened invariant): every clause of `Blue.StoreHist.Inv` for `shadow w` (the state
+with the duplicate child `imm` removed: I1, I2 over `mem :: tree`, counters, published timestamps,
+level-0 metadata), and for a window state `Extra`: `imm`'s versions are a SUBSET of the tree's
+versions (right after the install the file holds exactly them; a compaction may merge the file
+away), the memtable is newer than `imm`, and a tree version of a key of `b ∈ imm` is a copy of a
+version of `imm` or older than `b`.  NOT true in a window (and not claimed): "newer above" with `≤`
+over `mem :: imm :: tree` — `imm` may hold `k@5, k@3` and the tree's copy `k@5` is newer than `imm`'s
+`k@3`; the lookup is still right because `imm` answers with ITS newest version of the key. -/
+section HistoryWindow
+open Blue.StoreHist Blue.StoreHistWindow
+
+/-- **window_invariant**: after ANY valid history of the split alphabet (ending inside a window or
+    not; nothing assumed for write / rollover / flushInstall / flushClear, `CompactionOk` for a
+    compaction step as in `history_invariant`) -/
+theorem window_invariant (ops : List WOp) (hv : ValidW initW ops) : WInv (runW initW ops) :=
+  Blue.StoreHistWindow.window_invariant ops hv
+
+/-- … and it is inductive (one step, any reachable-or-not state satisfying it) -/
+theorem window_invariant_step (w : WState) (op : WOp) (ok : OpOkW w op) (inv : WInv w) : WInv (applyW w op) :=
+  Blue.StoreHistWindow.winv_step w op ok inv
+
+/-- **window_reads_unchanged**: in every state satisfying the window invariant, `kvsLoad` — at EVERY
+    key and EVERY timestamp, `imm` searched before level 0 — answers what it answers once `imm` is
+    cleared (`shadow w`: the state `flushClear` leads to) -/
+theorem window_reads_unchanged {w : WState} (inv : WInv w) (k t : Nat) :
+    kvsLoad w.h.st k t = kvsLoad (shadow w).st k t :=
+  Blue.StoreHistWindow.window_reads_unchanged inv k t
+
+/-- the two ends of the window: `flushInstall` changes no read, `flushClear` changes no read -/
+theorem window_reads_install_clear {w : WState} (inv : WInv w) (k t : Nat) :
+    kvsLoad (applyW w .flushInstall).h.st k t = kvsLoad w.h.st k t
+    ∧ kvsLoad (applyW w .flushClear).h.st k t = kvsLoad w.h.st k t :=
+  ⟨Blue.StoreHistWindow.window_reads_install inv k t, Blue.StoreHistWindow.window_reads_clear inv k t⟩
+
+/-- **history_refines_window**: `history_refines` for the split alphabet — ANY valid list of
+    operations, every `flushInstall` followed by its `flushClear` or not yet -/
+theorem history_refines_window (ops : List WOp) (hv : ValidW initW ops) (k t : Nat)
+    (ht : (runW initW ops).h.vis ≤ t) :
+    kvsLoad (runW initW ops).h.st k t = (specW ops k).map (fun e => (k, e.1))
+    ∧ ∀ ts p, specW ops k = some (ts, p) → (runW initW ops).h.pay k ts = some p :=
+  Blue.StoreHistWindow.history_refines_window ops hv k t ht
+
+/-- `load` answers the payload of the last accepted write, in window states too -/
+theorem history_reads_last_write_window (ops : List WOp) (hv : ValidW initW ops) (k : Nat) :
+    Blue.StoreHist.read (runW initW ops).h k = lastWriteW ops k :=
+  Blue.StoreHistWindow.history_reads_last_write_window ops hv k
+
+/-! non-vacuity: a batch, a delete of key 5, rollover, `flushInstall`; INSIDE the window an
+    overwrite of key 7 and a compaction moving the just-installed file to level 1; reads there
+    (`opsW` ends inside the window); `flushClear` last (`opsAll`). -/
+namespace WinHist
+
+def file : KFile := ⟨5, 7, 2, [(5, 2), (5, 1), (7, 1), (6, 1)]⟩
+
+def opsW : List WOp :=
+  [.write [(5, some 50), (7, some 70), (6, some 60)], .write [(5, none)], .rollover, .flushInstall,
+   .write [(7, some 71)], .compact [] [[file]]]
+
+def opsAll : List WOp := opsW ++ [.flushClear]
+
+theorem before_compaction : (runW initW (opsW.take 5)).h.st
+    = ⟨[(7, 4)], some [(5, 2), (5, 1), (7, 1), (6, 1)], [file], []⟩ := by rfl
+
+theorem compaction_ok : CompactionOk (runW initW (opsW.take 5)).h.st
+    { (runW initW (opsW.take 5)).h.st with l0 := [], levels := [[file]] } := by
+  rw [before_compaction]
+  refine .mk [(true, [(5, 2), (5, 1), (7, 1), (6, 1)])] [] [[(5, 2), (5, 1), (7, 1), (6, 1)]] [] [] rfl rfl ?_
+    (closedB_sound _ (by decide)) (fun e => Iff.rfl) (by decide) rfl
+    (fun c hc => by cases hc) ?_ (fun g hg => by cases hg) (i1_of_check _ (by decide))
+  · unfold treeComps l0Comps
+    rw [l0Order_cons_top _ _ (by decide), l0Order_nil]
+    rfl
+  · unfold treeComps l0Comps
+    show (l0Order []).map _ ++ _ = _
+    rw [l0Order_nil]
+    rfl
+
+theorem opsW_valid : ValidW initW opsW :=
+  ⟨trivial, trivial, trivial, trivial, trivial, compaction_ok, trivial⟩
+
+theorem opsAll_valid : ValidW initW opsAll :=
+  ⟨trivial, trivial, trivial, trivial, trivial, compaction_ok, trivial, trivial⟩
+
+/-- the reached WINDOW state: `imm` still present, level 1 holds the same versions -/
+theorem in_window : (runW initW opsW).h.st
+      = ⟨[(7, 4)], some [(5, 2), (5, 1), (7, 1), (6, 1)], [], [[file]]⟩
+    ∧ (runW initW opsW).win = true ∧ (runW initW opsW).h.vis = 4 := ⟨by rfl, by rfl, by rfl⟩
+
+theorem after_clear : (runW initW opsAll).h.st = ⟨[(7, 4)], none, [], [[file]]⟩
+    ∧ (runW initW opsAll).win = false := ⟨by rfl, by rfl⟩
+
+/-- I2 does NOT hold of the window state's component list (it holds of the shadow's) -/
+example : invB (runW initW opsW).h.st = false ∧ invB (shadow (runW initW opsW)).st = true := by
+  refine ⟨?_, invB_of_inv (Blue.Props.C01.window_invariant opsW opsW_valid).base⟩
+  rw [in_window.1]; decide +kernel
+
+theorem last_writes : lastWriteW opsW 5 = some none ∧ lastWriteW opsW 7 = some (some 71)
+    ∧ lastWriteW opsW 6 = some (some 60) ∧ lastWriteW opsW 9 = none := by decide
+
+/-- the theorem instantiated INSIDE the window … -/
+example : Blue.StoreHist.read (runW initW opsW).h 5 = some none
+    ∧ Blue.StoreHist.read (runW initW opsW).h 7 = some (some 71)
+    ∧ Blue.StoreHist.read (runW initW opsW).h 6 = some (some 60) := by
+  simp only [Blue.Props.C01.history_reads_last_write_window opsW opsW_valid]
+  exact ⟨last_writes.1, last_writes.2.1, last_writes.2.2.1⟩
+
+/-- … and the store side by evaluation of `kvsLoad` on the window state and after the clear: inside
+    the window key 5 is answered by `imm` (the tombstone `5@2`), key 7 by the memtable (the write
+    made inside the window), key 6 by `imm`; after the clear the level-1 file answers the same -/
+example : kvsLoad (runW initW opsW).h.st 5 4 = some (5, 2) ∧ (runW initW opsW).h.pay 5 2 = some none
+    ∧ kvsLoad (runW initW opsW).h.st 7 4 = some (7, 4) ∧ kvsLoad (runW initW opsW).h.st 6 4 = some (6, 1)
+    ∧ kvsLoad (runW initW opsAll).h.st 5 4 = some (5, 2) ∧ kvsLoad (runW initW opsAll).h.st 6 4 = some (6, 1) := by
+  rw [in_window.1, after_clear.1]
+  refine ⟨by decide +kernel, by rfl, by decide +kernel, by decide +kernel, by decide +kernel, by decide +kernel⟩
+
+/-- the hypotheses of `window_reads_unchanged`, `window_reads_install_clear`, `window_invariant_step`
+    are met: by the window state itself, by the state right after the rollover (entering the
+    window), and by the step that leaves the window -/
+example : kvsLoad (runW initW opsW).h.st 5 4 = kvsLoad (shadow (runW initW opsW)).st 5 4 :=
+  Blue.Props.C01.window_reads_unchanged (Blue.Props.C01.window_invariant opsW opsW_valid) 5 4
+
+example : kvsLoad (applyW (runW initW (opsW.take 3)) .flushInstall).h.st 5 2 = kvsLoad (runW initW (opsW.take 3)).h.st 5 2 :=
+  (Blue.Props.C01.window_reads_install_clear
+    (Blue.Props.C01.window_invariant (opsW.take 3) ⟨trivial, trivial, trivial, trivial⟩) 5 2).1
+
+example : WInv (applyW (runW initW opsW) .flushClear) :=
+  Blue.Props.C01.window_invariant_step _ .flushClear trivial (Blue.Props.C01.window_invariant opsW opsW_valid)
+
+end WinHist
+end HistoryWindow
+-- END StoreHistWindow
+-- BEGIN Recover
+/-! ## `recover`: the version a reopen builds from the SST metadata (known finding D-9)
+
+`Blue.Recover.recoverTree` follows `tree::recover::recover` (lsmtk/src/tree/recover.rs:53-160): the
+graph of `construct_adj_list` (an edge `u → v`, "u above v", for overlapping key ranges unless `u`
+is entirely older; BOTH edges when the timestamp ranges intersect too), the components, the
+longest-path levels of the stack loop, the clamp to `NUM_LEVELS`, the two sorts.  The general
+theorems hold for EVERY version `recover` may build (`IsRecovered`: any level assignment with the
+guarantees of the algorithm — `LevelsOk` — and the version `treeOf` builds from it); inside the
+class `recoverTree` is such a version (`recoverTree_isRecovered`), outside it this is checked on
+the instances.  `smallest_timestamp` is the minimum over the versions of the file (`sts`). -/
+section Recover
+open Blue.NextCompaction Blue.Recover Blue.StoreHist Blue.StoreHistTree Blue.RecoverHist
+
+/-- **inside the class a reopen keeps the tree invariant and I2**: the files of a tree with the tree
+    invariant, `biggest_timestamp` bounding the versions of each file, no two files overlapping in key
+    range and in timestamp range: every version `recover` may build satisfies `Inv` and I2 -/
+theorem recover_preserves_inv {t0 t : Tree} (hinv : Inv t0)
+    (hts : ∀ f ∈ t0.flatten, ∀ v ∈ f.vers, v.2 ≤ f.bts)
+    (hno : NoKeyTsOverlap t0.flatten) (hr : IsRecovered t0.flatten t) :
+    Inv t ∧ NewerAbove (treeComps t) := Blue.Recover.recover_preserves_inv hinv hts hno hr
+
+/-- the same for the function, with "exactly the files given" and "reads what the tree read" -/
+theorem recoverTree_preserves_inv {t0 : Tree} (hinv : Inv t0)
+    (hts : ∀ f ∈ t0.flatten, ∀ v ∈ f.vers, v.2 ≤ f.bts) (hno : NoKeyTsOverlap t0.flatten) :
+    Inv (recoverTree t0.flatten) ∧ NewerAbove (treeComps (recoverTree t0.flatten))
+    ∧ (∀ f, f ∈ (recoverTree t0.flatten).flatten ↔ f ∈ t0.flatten)
+    ∧ (NewerAbove (treeComps t0) → ∀ k ts, load (treeComps (recoverTree t0.flatten)) k ts = load (treeComps t0) k ts) :=
+  Blue.Recover.recoverTree_preserves_inv hinv hts hno
+
+/-- reads are unchanged by a reopen inside the class -/
+theorem recover_reads_same {t0 t : Tree} (hinv : Inv t0) (hna : NewerAbove (treeComps t0))
+    (hts : ∀ f ∈ t0.flatten, ∀ v ∈ f.vers, v.2 ≤ f.bts)
+    (hno : NoKeyTsOverlap t0.flatten) (hr : IsRecovered t0.flatten t) (k ts : Nat) :
+    load (treeComps t) k ts = load (treeComps t0) k ts :=
+  Blue.Recover.recover_reads_same hinv hna hts hno hr k ts
+
+/-- the mechanism of D-9: two files that overlap in key range and in timestamp range get the SAME
+    level, whatever levels they had -/
+theorem overlap_same_level {fs : List File} {L : File → Nat} (hL : LevelsOk fs L) {a b : File}
+    (ha : a ∈ fs) (hb : b ∈ fs) (hid : a.id ≠ b.id) (hk : keyOverlap a b = true) (ht : tsOverlap a b = true) :
+    L a = L b := Blue.Recover.overlap_same_level hL ha hb hid hk ht
+
+/-- **D-9**: a legitimate tree (`A = {2@10}` over `B = {3@6, 5@7, 5@1}` over `C = {2@2, 3@3, 4@4}`; history
+    in `Blue.Proofs.Recover`) whose recovered version breaks I1, I2 and the read of key 3 -/
+theorem recover_breaks_inv_witness :
+    (Inv d9T0 ∧ NewerAbove (treeComps d9T0))
+    ∧ noKeyTsOverlapB d9T0.flatten = false
+    ∧ recoverTree d9T0.flatten = d9T1
+    ∧ ¬ Inv d9T1
+    ∧ ¬ NewerAbove (treeComps d9T1)
+    ∧ load (treeComps d9T0) 3 100 = some (3, 6)
+    ∧ load (treeComps d9T1) 3 100 = some (3, 3) := Blue.Recover.recover_breaks_inv_witness
+
+/-- the class is not the exact boundary: overlap is harmless when the component lands in level 0 -/
+theorem overlap_harmless_at_level0 :
+    noKeyTsOverlapB [d9B, d9C] = false
+    ∧ recoverTree [d9B, d9C] = [[d9B, d9C]] ++ List.replicate 15 []
+    ∧ Inv (recoverTree [d9B, d9C])
+    ∧ NewerAbove (treeComps (recoverTree [d9B, d9C]))
+    ∧ load (treeComps (recoverTree [d9B, d9C])) 3 100 = some (3, 6) := Blue.Recover.overlap_harmless_at_level0
+
+/-- **a reopen inside the class is a step of the history**: both invariants and the relation to the
+    specification are kept -/
+theorem reopen_step (s : TState) (L : File → Nat) (m : SpecMap) (ok : ReopenOk s L) (inv : TInv s)
+    (r : Rel s.toH m) : TInv (reopenState s L) ∧ Rel (reopenState s L).toH m :=
+  Blue.RecoverHist.reopen_step s L m ok inv r
+
+/-- **reads return the last accepted write across reopens that satisfy the side condition**.  Outside
+    it (two files overlapping in key range and in timestamp range) D-9 applies: nothing is claimed. -/
+theorem store_history_refines_reopen (k : Nat) (ops : List ROp) (hv : RValid (tinit k) ops) (key t : Nat)
+    (ht : (rrun (tinit k) ops).vis ≤ t) :
+    kvsLoad (toKState (rrun (tinit k) ops).mem (rrun (tinit k) ops).imm (rrun (tinit k) ops).tree) key t
+        = (rspec k ops key).map (fun e => (key, e.1))
+    ∧ (∀ ts p, rspec k ops key = some (ts, p) → (rrun (tinit k) ops).pay key ts = some p)
+    ∧ TInv (rrun (tinit k) ops) := Blue.RecoverHist.store_history_refines_reopen k ops hv key t ht
+
+theorem store_history_reads_last_write_reopen (k : Nat) (ops : List ROp) (hv : RValid (tinit k) ops) (key : Nat) :
+    read (rrun (tinit k) ops).toH key = lastWrite (ops.map rtoOp) key :=
+  Blue.RecoverHist.store_history_reads_last_write_reopen k ops hv key
+
+/-! ### non-vacuity -/
+
+/-- four files, `A` over `B, C` over `D`, no two overlapping in keys and timestamps: recovered to the
+    same levels -/
+example : recoverTree okT0.flatten = okT0 := ok_recovered_same
+
+/-- the hypotheses of `recover_preserves_inv` / `recoverTree_preserves_inv` / `recover_reads_same`
+    hold of it -/
+example : Inv (recoverTree okT0.flatten) ∧ NewerAbove (treeComps (recoverTree okT0.flatten)) :=
+  let h := Blue.Props.C01.recoverTree_preserves_inv (t0 := okT0) (invB_sound (by decide +kernel))
+    (by decide +kernel) (noKeyTsOverlap_of_check ok_noOverlap)
+  ⟨h.1, h.2.1⟩
+
+example : IsRecovered okT0.flatten (recoverTree okT0.flatten) :=
+  recoverTree_isRecovered (filesOk_of_inv (invB_sound (by decide +kernel)) (by decide +kernel))
+    (noKeyTsOverlap_of_check ok_noOverlap)
+
+example (k ts : Nat) : load (treeComps (recoverTree okT0.flatten)) k ts = load (treeComps okT0) k ts :=
+  Blue.Props.C01.recover_reads_same (invB_sound (by decide +kernel))
+    (Blue.Kvs.newerAboveB_sound _ (by decide +kernel)) (by decide +kernel)
+    (noKeyTsOverlap_of_check ok_noOverlap)
+    (recoverTree_isRecovered (filesOk_of_inv (invB_sound (by decide +kernel)) (by decide +kernel))
+      (noKeyTsOverlap_of_check ok_noOverlap)) k ts
+
+/-- the D-9 files are a version `recover` may build (so `overlap_same_level` applies to it): `B` and
+    `C` share level 1 -/
+example : IsRecovered d9T0.flatten d9T1 := d9_isRecovered
+example : keyOverlap d9B d9C = true ∧ tsOverlap d9B d9C = true ∧ rawLevel d9T0.flatten d9B = 1
+    ∧ rawLevel d9T0.flatten d9C = 1 := by decide +kernel
+
+/-- a history with a reopen: write, rollover, flush, reopen, delete — valid, and the read of key 1
+    after it is the tombstone of the last write -/
+example : RValid (tinit 15) demoOps := demo_valid
+example : read (rrun (tinit 15) demoOps).toH 1 = some none := by
+  rw [Blue.Props.C01.store_history_reads_last_write_reopen 15 demoOps demo_valid 1]
+  decide
+
+end Recover
+-- END Recover
+
 end Blue.Props.C01
 
 #print axioms Blue.Props.C01.read_returns_latest
@@ -1356,4 +1639,20 @@ end Blue.Props.C01
 #print axioms Blue.Props.C01.store_history_refines_concurrent_gc
 #print axioms Blue.Props.C01.atomic_is_choose_then_install
 #print axioms Blue.Props.C01.LaterHist.lops_valid
+#print axioms Blue.Props.C01.window_invariant
+#print axioms Blue.Props.C01.window_invariant_step
+#print axioms Blue.Props.C01.window_reads_unchanged
+#print axioms Blue.Props.C01.window_reads_install_clear
+#print axioms Blue.Props.C01.history_refines_window
+#print axioms Blue.Props.C01.history_reads_last_write_window
+#print axioms Blue.Props.C01.WinHist.opsW_valid
 #print axioms Blue.NextCompaction.NoCommonInputIsNotEnough.install_drops_A
+#print axioms Blue.Props.C01.recover_preserves_inv
+#print axioms Blue.Props.C01.recoverTree_preserves_inv
+#print axioms Blue.Props.C01.recover_reads_same
+#print axioms Blue.Props.C01.overlap_same_level
+#print axioms Blue.Props.C01.recover_breaks_inv_witness
+#print axioms Blue.Props.C01.overlap_harmless_at_level0
+#print axioms Blue.Props.C01.reopen_step
+#print axioms Blue.Props.C01.store_history_refines_reopen
+#print axioms Blue.Props.C01.store_history_reads_last_write_reopen
